@@ -677,6 +677,12 @@ class Interp:
         elif isinstance(st, ast.Break):
             raise _Break()
         elif isinstance(st, (ast.Expr, ast.Assert, ast.Pass)):
+            if isinstance(st, ast.Expr) and isinstance(st.value, (ast.Attribute, ast.Subscript)):
+                # a bare `x.attr` / `d[k]` statement is an existence probe: only the exception it may raise matters
+                try:
+                    self.eval(st.value)
+                except Undecided:
+                    pass
             if isinstance(st, ast.Expr) and isinstance(st.value, ast.Call):
                 # effects on local containers (append/add/setdefault...) and modelled externals are evaluated;
                 # calls outside the fragment (log.warning, self._precompute_alphasets(...)) have no modelled effect
@@ -715,6 +721,9 @@ class Interp:
             self.exec_block(st.body)
         elif isinstance(st, ast.FunctionDef):
             self.env[st.name] = Closure(st, self)
+        elif isinstance(st, (ast.Global, ast.Nonlocal)):
+            # reads and in-place operations go to the shared object anyway; REBINDING such a name is not modelled
+            self.outer_names = getattr(self, "outer_names", set()) | set(st.names)
         elif isinstance(st, ast.Raise):
             exc = st.exc.func if isinstance(st.exc, ast.Call) else st.exc
             raise RaisedInFragment(A.dotted(exc) if exc is not None else "<re-raise>")
@@ -723,6 +732,8 @@ class Interp:
 
     def assign(self, t, v):
         if isinstance(t, ast.Name):
+            if t.id in getattr(self, "outer_names", ()):
+                raise Undecided(f"rebinding of the global/nonlocal name {t.id}")
             self.env[t.id] = v
         elif isinstance(t, ast.Attribute) and isinstance(t.value, ast.Name) and t.value.id == "self":
             self.selfattrs[self._mangle(t.attr)] = v
@@ -1187,11 +1198,20 @@ class Interp:
                 return callee.f(xa, xk)
             if isinstance(callee, Closure):
                 return self.call_function(callee.node, xa, xk)
+            if isinstance(callee, Obj) and isinstance(callee.attrs.get("__call__"), PyFunc):
+                return callee.attrs["__call__"].f(xa, xk)
+            if isinstance(callee, Obj) and "__call__" in self.externals:
+                try:
+                    return self.externals["__call__"](callee, xa, xk)
+                except NotHandled:
+                    pass
             raise Undecided("call of a computed callee")
         if isinstance(f, ast.Name) and isinstance(self.env.get(f.id), PyFunc):
             xa = self.eval_args(e.args)
             xk = self.eval_kwargs(e.keywords)
             return self.env[f.id].f(xa, xk)
+        if isinstance(f, ast.Name) and isinstance(self.env.get(f.id), Obj) and isinstance(self.env[f.id].attrs.get("__call__"), PyFunc):
+            return self.env[f.id].attrs["__call__"].f(self.eval_args(e.args), self.eval_kwargs(e.keywords))
         if isinstance(f, ast.Attribute) and not (isinstance(f.value, ast.Name) and f.value.id in MODULE_NAMES):
             try:
                 recv = self.eval(f.value)
